@@ -3,6 +3,9 @@ package main
 import (
 	"encoding/binary"
 	"fmt"
+	"net"
+
+	"github.com/pascaldekloe/mqtt"
 )
 
 // Runners of the properties judged on sequential histories. Each: a corpus of
@@ -36,6 +39,15 @@ func brokerPublish(qos int, dup bool, id uint16, topic string, msg []byte) []byt
 	}
 	pkt = append(pkt, byte(l))
 	return append(pkt, body...)
+}
+
+// storedValue is a Persistence value as the client encodes it.
+func storedValue(packet []byte, seq uint64) []byte {
+	var out []byte
+	for _, b := range mqtt.VerifEncodeValue(net.Buffers{packet}, seq) {
+		out = append(out, b...)
+	}
+	return out
 }
 
 // quiet runs f without random faults.
@@ -179,6 +191,114 @@ var corpus = []scripted{
 			h.sc.wscript = []writeAns{{wHard, 1}}
 			h.disconnect()
 			h.doRead()
+		})
+	}},
+	{"Save fails at a persisted publish with limit 1: nothing may stay enqueued", func() seqOpts { o := baseOpts(); o.max1, o.max2 = 1, 1; return o }(), func(h *hist) {
+		h.quiet(func() {
+			h.sc.budgetIn = 0
+			h.sc.sscript = []bool{true}
+			h.pubP(1, false, []byte("A"), "t") // Persistence error
+			h.pubP(1, false, []byte("B"), "t") // the level is empty: accepted
+			h.sc.sscript = []bool{true}
+			h.pubP(2, false, []byte("C"), "t")
+			h.pubP(2, false, []byte("D"), "t")
+			h.connectQuiet()
+			h.goodSuffix()
+		})
+	}},
+	{"Save fails at a persisted publish while online, the next one is confirmed", baseOpts(), func(h *hist) {
+		h.quiet(func() {
+			h.sc.budgetIn = 0
+			h.connectQuiet()
+			h.sc.sscript = []bool{true}
+			h.pubP(1, false, []byte("A"), "t")
+			h.pubP(1, false, []byte("B"), "t")
+			h.sc.sscript = []bool{true}
+			h.pubP(2, false, []byte("C"), "t")
+			h.pubP(2, false, []byte("D"), "t")
+			h.goodSuffix()
+		})
+	}},
+	{"PUBREL Save fails once at the PUBREC, the transfer still completes", baseOpts(), func(h *hist) {
+		h.quiet(func() {
+			h.sc.budgetIn = 0
+			h.connectQuiet()
+			h.pubP(2, false, []byte("A"), "t")
+			h.sc.sscript = []bool{true} // the Save of the PUBREL record
+			h.doRead()
+			h.goodSuffix()
+		})
+	}},
+	{"Delete fails once at the PUBACK and at the PUBCOMP, the transfers still complete", baseOpts(), func(h *hist) {
+		h.quiet(func() {
+			h.sc.budgetIn = 0
+			h.connectQuiet()
+			h.pubP(1, false, []byte("A"), "t")
+			h.sc.sscript = []bool{true}
+			h.doRead()
+			h.pubP(2, false, []byte("B"), "t")
+			h.sc.sscript = []bool{false, true} // PUBREL saved, Delete at the PUBCOMP fails
+			h.doRead()
+			h.goodSuffix()
+		})
+	}},
+	{"PUBREC for the identifier next in line while only PUBRELs are pending", baseOpts(), func(h *hist) {
+		h.quiet(func() {
+			h.sc.budgetIn = 0
+			h.connectQuiet()
+			h.sc.dropComp = true
+			h.pubP(2, false, []byte("A"), "t")
+			h.sc.inject = [][]byte{ack4(0x50, 0xc001)} // follows the genuine PUBREC 0xc000
+			h.doRead()
+			h.doRead()
+			h.pubP(2, false, []byte("B"), "t")
+			h.doRead()
+			h.goodSuffix()
+		})
+	}},
+	{"PUBACK and PUBCOMP for the identifiers next in line with nothing pending", baseOpts(), func(h *hist) {
+		h.quiet(func() {
+			h.sc.budgetIn = 0
+			h.connectQuiet()
+			h.sc.inject = [][]byte{ack4(0x40, 0x8000)}
+			h.doRead()
+			h.connectQuiet()
+			h.sc.inject = [][]byte{ack4(0x70, 0xc000)}
+			h.doRead()
+			h.connectQuiet()
+			h.sc.inject = [][]byte{ack4(0x50, 0xc000)}
+			h.doRead()
+			h.pubP(1, false, []byte("A"), "t")
+			h.pubP(2, false, []byte("B"), "t")
+			h.goodSuffix()
+		})
+	}},
+	{"PUBCOMP next in line while the PUBLISH still awaits its PUBREC", baseOpts(), func(h *hist) {
+		h.quiet(func() {
+			h.sc.budgetIn = 0
+			h.connectQuiet()
+			h.sc.opts.lossRate = 1000 // the PUBREC is withheld
+			h.pubP(2, false, []byte("A"), "t")
+			h.sc.inject = [][]byte{ack4(0x70, 0xc000)}
+			h.doRead()
+			h.sc.opts.lossRate = 0
+			h.goodSuffix()
+		})
+	}},
+	{"restart at the identifier wrap: PUBREL 0xffff and PUBLISH 0xc000 pending", baseOpts(), func(h *hist) {
+		h.quiet(func() {
+			h.sc.budgetIn = 0
+			h.rewrite(func(m map[uint][]byte) {
+				m[0xffff] = storedValue([]byte{0x62, 2, 0xff, 0xff}, 70001)
+				m[0xc000] = storedValue([]byte{0x34, 6, 0, 1, 't', 0xc0, 0x00, 'W'}, 70002)
+				m[0xbfff] = storedValue([]byte{0x32, 6, 0, 1, 't', 0xbf, 0xff, 'X'}, 70003)
+				m[0x8000] = storedValue([]byte{0x32, 6, 0, 1, 't', 0x80, 0x00, 'Y'}, 70004)
+			})
+			h.adopt()
+			h.connectQuiet()
+			h.pubP(2, false, []byte("Z"), "t")
+			h.pubP(1, false, []byte("V"), "t")
+			h.goodSuffix()
 		})
 	}},
 	{"big message pending at Close", func() seqOpts { o := baseOpts(); o.bufSize = 32; return o }(), func(h *hist) {
